@@ -52,12 +52,19 @@ def call_site(sname, plan):
     return site + ctx
 
 
+import multiprocessing as _mp
+HANGS = _mp.Value("i", 0)
+
+
 def run_plan(a):
     sname, plan = a
     s = SC[sname]
-    r = s.run(plan=plan, want_log=False, timeout=60)
+    r = s.run(plan=plan, want_log=False, timeout=20)
     if r["timeout"]:
-        r = s.run(plan=plan, want_log=False, timeout=600)
+        r = s.run(plan=plan, want_log=False, timeout=120) if HANGS.value < 3 else r
+        if r["timeout"]:
+            with HANGS.get_lock():
+                HANGS.value += 1
     r.pop("log", None)
     r["err"] = r["err"][-2500:]
     r["judged"] = judge_static(sname, plan, r)
